@@ -70,8 +70,8 @@ func runC06(r *Run) {
 	r.OnSuccessMustCall(rt, ".Pop", "chain.(*momentumEventManager).broadcastDeleteMomentum", "every popped momentum is announced to every listener (pool, points, election, subscriptions)")
 	r.Has(rt, "recv.momentumEventManager.broadcastDeleteMomentum(recv.getFrontierStore().PrefetchMomentum(recv.getFrontierStore().GetFrontierMomentum()#0)#0)", "the announced momentum is the one that was the frontier before the pop")
 	r.Order(rt, ".PrefetchMomentum", ".Pop", "the popped momentum's content is fetched while it still exists")
-	r.Has("chain.(*momentumEventManager).broadcastDeleteMomentum", "recv.listeners[(iter+1)].DeleteMomentum(a0)", "every registered listener is notified")
-	r.Has("chain.(*momentumEventManager).broadcastInsertMomentum", "recv.listeners[(iter+1)].InsertMomentum(a0)", "every registered listener is notified")
+	r.Has("chain.(*momentumEventManager).broadcastDeleteMomentum", "recv.listeners[iter].DeleteMomentum(a0)", "every registered listener is notified")
+	r.Has("chain.(*momentumEventManager).broadcastInsertMomentum", "recv.listeners[iter].InsertMomentum(a0)", "every registered listener is notified")
 
 	// undo machinery
 	r.Has(pop, "db.ApplyPatch(db.newLevelDBBatchWrapper($batch).Subset(db.frontierByte),recv.getRollback($pf.Height))", "the undo record applied is the one of the frontier height")
